@@ -5,7 +5,7 @@
 // the first test pins the first character to one byte. Verus has no model of str byte slicing or of
 // closures over chars, so this is a BOUNDED stand-in: Kani/CBMC, every valid UTF-8 string of up to
 // 4 bytes (covers 1-, 2-, 3- and 4-byte first characters followed by further bytes).
-//@assume format! on the error path is replaced by String::new() (the message text is not part of the property); strings longer than 4 bytes are not explored (bounded)
+//@assume a change that brings Unicode classification tables (char::is_alphabetic) into the function needs far deeper unwinding than 6: such a tree is reported UNDECIDED (unwinding bound), not proved and not a violation; format! on the error path is replaced by String::new() (the message text is not part of the property); strings longer than 4 bytes are not explored (bounded)
 //@rewrite plain
 #![allow(dead_code, unused_variables, unused_mut, unused_imports)]
 
@@ -22,7 +22,7 @@ mod proofs {
     use super::*;
     // @harness varname_total @C01.varname.total @C14.varname.ascii_identifier bounded 4 :: for every valid UTF-8 string of at most 4 bytes valid_variable_name returns (no slice panic at a non-boundary), and accepts exactly the ASCII identifiers [A-Za-z][A-Za-z0-9_]*
     #[kani::proof]
-    #[kani::unwind(64)]
+    #[kani::unwind(6)]
     fn varname_total() {
         let bytes: [u8; 4] = kani::any();
         let n: usize = kani::any();
